@@ -134,6 +134,7 @@ func (o *OS) Install() {
 		Close: o.close, Sync: o.sync, FTruncate: o.ftruncate, Truncate: o.truncate, Rename: o.rename,
 		Remove: o.remove, RemoveAll: o.removeAll, Mkdir: o.mkdir, Link: o.link, Stat: o.stat, Lstat: o.lstat,
 		FStat: o.fstat, ReadDir: o.readDir, Chtimes: nil, NextRandom: o.nextRandom,
+		RootOpenFile: o.rootOpenFile,
 	}
 }
 
@@ -350,6 +351,21 @@ func (o *OS) openFile(name string, flag int, perm os.FileMode) (*os.File, error)
 		o.record(Event{Kind: EvCreate, Path: rp, Ino: of.ino})
 	} else if willTrunc {
 		o.record(Event{Kind: EvTruncate, Path: rp, Ino: of.ino, Size: 0})
+	}
+	return f, nil
+}
+
+// rootOpenFile tracks descriptors opened through an os.Root (the LOCK file): they are not part of
+// the persistence model, but Kill must be able to close them, which releases their flock.
+func (o *OS) rootOpenFile(r *os.Root, name string, flag int, perm os.FileMode) (*os.File, error) {
+	f, err := os.DsimRealRootOpenFile(r, name, flag, perm)
+	if err != nil {
+		return nil, err
+	}
+	if rp, ok := o.rel(filepath.Join(r.Name(), name)); ok {
+		o.mu.Lock()
+		o.files[f] = &openFile{path: rp, actor: o.cur, isDir: true} // isDir: reads/writes pass through unrecorded
+		o.mu.Unlock()
 	}
 	return f, nil
 }
